@@ -59,14 +59,50 @@ def rule_concat(ctx, py):
         ctx.check(pyfe.src(lp.iter) == "network.species" and isinstance(lp.target, ast.Name), R, lp, q,
                   "for %s in %s" % (pyfe.src(lp.target), pyfe.src(lp.iter)), "blocks in species order",
                   "blocks are not concatenated in the order of network.species")
-        cats = [n for n in ast.walk(lp) if isinstance(n, ast.Assign) and pyfe.src(n.targets[0]) == arr and
-                isinstance(n.value, ast.Call) and pyfe.call_name(n.value) == "np.concatenate"]
-        ctx.need(len(cats) == 2, R, "%s: expected two concatenations (override / default)" % q)
-        for c in cats:
-            tup = c.value.args[0]
-            okk = isinstance(tup, ast.Tuple) and len(tup.elts) == 2 and pyfe.src(tup.elts[0]) == arr
-            ctx.check(okk, R, c, q, pyfe.src(c)[:80], "appended after the blocks of the previous species",
-                      "block not appended at the end of the running array")
+        from .. import pysym
+        cats = [n for n in ast.walk(lp) if isinstance(n, ast.Assign) and len(n.targets) == 1 and isinstance(n.targets[0], ast.Name)
+                and isinstance(n.value, ast.Call) and pyfe.call_name(n.value) in ("np.concatenate", "np.append", "np.hstack")]
+        apps = [c for c in pyfe.calls_in(lp) if isinstance(c.func, ast.Attribute) and c.func.attr == "append" and
+                isinstance(c.func.value, ast.Name)]
+        rets = [r for r in ast.walk(f) if isinstance(r, ast.Return) and r.value is not None]
+        ctx.need(rets, R, "%s: no return" % q)
+        if cats and not apps:
+            # running array: acc = concatenate((acc, block)) once per species -> blocks in species order (species-major)
+            for c in cats:
+                acc = c.targets[0].id
+                a0 = c.value.args[0]
+                tup = a0 if isinstance(a0, ast.Tuple) else ast.Tuple(elts=list(c.value.args[:2]), ctx=ast.Load())
+                okk = len(tup.elts) == 2 and pyfe.src(tup.elts[0]) == acc
+                ctx.check(okk, R, c, q, pyfe.src(c)[:80], "appended after the blocks of the previous species",
+                          "block not appended at the end of the running array")
+            ctx.check(all(pysym.isrc(r.value, f, stop={c.targets[0].id for c in cats}).replace(" ", "").find(cats[0].targets[0].id) >= 0
+                          for r in rets), R, rets[-1], q, "returns the running array", "", "the assembled array is not what is returned")
+        elif apps and not cats:
+            # list of per-species blocks, assembled once at the end: the assembling call decides the layout
+            lst = apps[0].func.value.id
+            ctx.check(all(a_.func.value.id == lst for a_ in apps), R, apps[0], q, "one block list `%s`" % lst, "", "several block lists")
+            SM = ("np.concatenate(L)", "np.hstack(L)", "np.array(L).flatten()", "np.array(L).ravel()", "np.vstack(L).flatten()",
+                  "np.vstack(L).ravel()", "np.stack(L).flatten()", "np.stack(L).ravel()", "np.asarray(L).flatten()",
+                  "np.asarray(L).ravel()", "np.array(L).reshape(-1)", "np.concatenate(L,axis=0)")
+            finals = [r for r in rets if lst in pyfe.src(r.value)]
+            ctx.need(finals, R, "%s: the block list is not assembled in a return statement" % q)
+            for r in finals:
+                t = pyfe.src(r.value).replace(" ", "").replace(lst, "L")
+                inner = t
+                for wrap in ("UnitArray(",):
+                    if inner.startswith(wrap):
+                        inner = inner[len(wrap):]
+                core = next((x for x in SM if inner.startswith(x)), None)
+                cellmajor = any(k_ in t for k_ in ("column_stack", ".T.", ".T)", "transpose", "axis=1", "'F'", "dstack", "swapaxes"))
+                if cellmajor or core is None:
+                    ctx.check(not cellmajor, R, r, q, pyfe.src(r.value)[:80], "blocks laid end to end (species-major)",
+                              "the per-species blocks are interleaved (`%s`): entry (species, cell) lands at cell*nspecies + species, "
+                              "every reader expects species*ncells + cell" % pyfe.src(r.value)[:60]) if cellmajor else \
+                        ctx.error(R, "%s: assembly `%s` not recognised" % (q, pyfe.src(r.value)[:60]))
+                else:
+                    ctx.ok(R, r, q, pyfe.src(r.value)[:80], "blocks laid end to end in species order")
+        else:
+            ctx.error(R, "%s: neither a running concatenation nor a block list found" % q)
         calls = [c for c in pyfe.calls_in(lp) if pyfe.call_name(c) == per]
         ctx.check(len(calls) == 1 and pyfe.src(calls[0].args[0]) == pyfe.src(lp.target) and
                   [pyfe.src(a) for a in calls[0].args[1:3]] == ["network", "space"], R, lp, q,
@@ -202,6 +238,9 @@ def run(ctx):
     for i in ctx.insts[n0:]:
         i.rule = "C13.RADIX"
     ctx.floors = {k: v for k, v in ctx.floors.items() if k.startswith("C13")}
+    # set_state / set_at convert the given amount into the stored units, not the other way round
+    from . import c06
+    c06.rule_convert_args(ctx, ctx.py, "C13.CONVERT")
     from .. import lints
     lints.run(ctx, "C13", ctx.py, ["rdsystem", "value_processing"], truth_floor=30)
     ctx.assume("the values themselves are not decided; environment indices are range-checked by C20.EXTIDX")
